@@ -37,6 +37,26 @@ void h_reschedule(void)
   /* Q7 */ __CPROVER_assert(G_ins_delay <= e.deadline - L, "Q7 never dropped: the delay used is not beyond the real distance to the deadline");
 }
 
+/* the whole schedule(): "scheduling on a stopped service is refused rather than lost" and the id it hands out */
+void h_schedule_whole(void)
+{
+  SCHED_STATE
+  void *cb = (void *)&W; W._accepting = nondet_bool(); G_map_writes = 0;
+  __CPROVER_assume(W._nextId >= 1 && W._nextId < ((uint64_t)1 << 63));            /* ctor: _nextId{1}; 2^63 timers are out of reach */
+  const uint64_t next0 = W._nextId; const bool acc = W._accepting;
+  uint64_t id = TimingWheel_schedule(&W, delay, cb);
+  IORA_CANARY("h_schedule_whole: returns");
+  if (!acc) {
+    IORA_CANARY("h_schedule_whole: refused");
+    /* Q8 */ __CPROVER_assert(id == InvalidTimerId && G_ins_calls == 0 && G_map_writes == 0 && G_wheel_locks == 0 && W._nextId == next0, "Q8 a wheel that is not accepting (stopped / draining / not started) REFUSES: InvalidTimerId, nothing inserted, nothing registered - never accepted-and-lost");
+  } else {
+    IORA_CANARY("h_schedule_whole: accepted");
+    /* Q9 */ __CPROVER_assert(id == next0 && id != InvalidTimerId && W._nextId == next0 + 1, "Q9 an accepted timer gets a fresh, valid id");
+    /* Q2 */ __CPROVER_assert(G_ins_calls == 1 && G_ins_e == &e && G_map_writes == 1 && G_map_key == id && G_map_slot == &e && e.id == id && e.callback == cb && G_wheel_locks == 1, "Q2 under the wheel lock the entry is inserted once and registered under the id that is returned");
+    /* Q3 */ __CPROVER_assert(G_ins_delay >= e.deadline - L - tick || delay <= tick, "Q3 not early: the delay used for the bucket computation is measured from the wheel's time base (>= deadline - lastAdvanceTime - tick), unless the timer is due within one tick anyway");
+  }
+}
+
 #ifdef IORA_SEARCH
 /* SEARCH: how far the tick thread is behind (STALL = clock - lastAdvanceTime) and the delay; tick 10 */
 void h_search(void)
